@@ -14,6 +14,7 @@ PROP = {
         {"name": "vterm_cxx", "quick": 2000000, "thorough": 24000000, "maxlen": 300},
         {"name": "vterm_c_long", "quick": 40000, "thorough": 400000, "maxlen": 64},
         {"name": "vterm_cxx_long", "quick": 30000, "thorough": 300000, "maxlen": 64},
+        {"name": "sline_api_big", "quick": 30000, "thorough": 400000, "maxlen": 200},
         {"name": "sline_api", "quick": 2000000, "thorough": 20000000, "maxlen": 200},
     ],
     "fuzz": [{"name": "vterm_c", "secs": 60, "maxlen": 300}, {"name": "vterm_cxx", "secs": 40, "maxlen": 300}],
